@@ -167,21 +167,26 @@ _c10("c10_witness", "no reset before the comparison: must FAIL (vacuity witness)
 
 # ---------------------------------------------------------------- C16: wrappers == core call
 def _c16(name, bounds, sym, stubs=(), cap=600, witness=False, tier="quick", mod="c16"):
-    HARNESSES[name] = H(mod, ["C16"], cap=cap, sym=sym, bounds=bounds, stubs=stubs, untagged="C16", witness=witness, mem=6, tier=tier)
+    HARNESSES[name] = H(mod, ["C16"], cap=cap, sym=sym, bounds=bounds, stubs=stubs, untagged="C16", witness=witness, mem=(7 if stubs else 6), tier=tier, thorough_cap=5400)
 _pv = "mask: None or Some([m0,m1]) symbolic; inactive channels are passed empty input slices"
-_c16("c16_process_ffo", "FastFixedOut<f64> Linear chunk 2, 2 ch, fresh; process() vs process_into_buffer() on a twin, index-signal input", _pv)
-_c16("c16_process_sfi", "SincFixedIn<f64>+Probe(2,1) Nearest chunk 6, 2 ch (estimate larger than written count: truncation)", _pv)
-_c16("c16_process_ftio", "FftFixedInOut<f64> 2->3 chunk 2, 2 ch", _pv, stubs=FFT_STUBS)
+_c16("c16_process_ffo", "FastFixedOut<f64> Nearest chunk 2, 2 ch, fresh; process() vs process_into_buffer() on a twin, index-signal input", _pv)
+_c16("c16_process_sfi", "SincFixedIn<f64>+Probe(2,1) Nearest chunk 6, 2 ch (estimate larger than written count: truncation)", _pv, tier="thorough")
+_c16("c16_process_ftio", "FftFixedInOut<f64> 2->3 chunk 2, 2 ch", _pv, stubs=FFT_STUBS, tier="thorough")
 _pp = "partial lengths l0 in [1,next), l1 in [0,next) independent; mask None/Some([true,m1]); masked channel may be empty"
-_c16("c16_partial_ffo", "FastFixedOut<f64> Linear chunk 2, 2 ch; process_partial_into_buffer(Some) vs zero-padded process_into_buffer on a twin", _pp)
-_c16("c16_partial_sfi", "SincFixedIn<f64>+Probe(2,1) chunk 6, 2 ch; as above", _pp)
-_c16("c16_partial_fto", "FftFixedOut<f64> 2->3 chunk 3, 2 ch; as above", _pp, stubs=FFT_STUBS)
+_c16("c16_partial_ffo", "FastFixedOut<f64> Nearest chunk 2, 1 ch; process_partial_into_buffer(Some(x[..l])) vs zero-padded process_into_buffer on a twin", "partial length l in [1, next)")
+_c16("c16_partial_sfi", "SincFixedIn<f64>+Probe(2,1) chunk 6, 1 ch; as above", "partial length l in [1, next)")
+_c16("c16_partial_ffo_2ch", "FastFixedOut<f64> chunk 2, 2 ch: concrete partial lengths 5 and 2 (per-channel padding), mask [true,true]; vs zero-padded twin", "none (concrete lengths)")
+_c16("c16_partial_ffo_2ch_masked_empty", "FastFixedOut<f64> chunk 2, 2 ch: channel 0 partial (5 frames), channel 1 masked and passed EMPTY; vs zero-padded twin", "none (concrete)")
+_c16("c16_partial_ffo_2ch_sym", "FastFixedOut<f64> Linear chunk 2, 2 ch; symbolic independent partial lengths and mask", _pp, tier="thorough")
+_c16("c16_partial_sfi_2ch_sym", "SincFixedIn<f64>+Probe(2,1) chunk 6, 2 ch; symbolic independent partial lengths and mask", _pp, tier="thorough")
+_c16("c16_partial_fto_2ch_sym", "FftFixedOut<f64> 2->3 chunk 3, 2 ch; symbolic partial lengths and mask", _pp, stubs=FFT_STUBS, tier="thorough")
 _c16("c16_none_ffo", "FastFixedOut<f64> Linear chunk 2, 1 ch; one call of audio, then process_partial_into_buffer(None) x2 vs all-zero chunks on a twin", "none (concrete)")
 _c16("c16_none_fti", "FftFixedIn<f64> 2->3 chunk 3, 1 ch; one call, then None x2 vs zero chunks", "none (concrete)", stubs=FFT_STUBS)
 _c16("c16_partial_alloc_ffo", "FastFixedOut<f64> chunk 2, 1 ch; process_partial(Some|None) vs process_partial_into_buffer on a twin", "Some/None; partial length in [1,5]")
 _c16("c16_vec_setters_getters", "Box<dyn VecResampler<f64>> over FastFixedOut (orig 0.75, max 2) vs the concrete type through Resampler::", "setter argument: every f64; ramp; absolute/relative", mod="c16v")
-_c16("c16_vec_calls", "Box<dyn VecResampler<f64>> over FastFixedOut chunk 2: process_into_buffer / process / process_partial_into_buffer(Some) / process_partial(None) vs the concrete type", "which method (symbolic selector)", mod="c16v")
-_c16("c16_witness", "twin of a different degree: must FAIL (vacuity witness)", _pp, witness=True)
+for _n, _what in (("into", "process_into_buffer"), ("process", "process"), ("partial", "process_partial_into_buffer(Some)"), ("process_partial", "process_partial(None)")):
+    _c16("c16_vec_" + _n, "Box<dyn VecResampler<f64>> over FastFixedOut chunk 2: %s through the object vs the concrete type" % _what, "none (concrete)", mod="c16v")
+_c16("c16_witness", "twins of different ratio: must FAIL (vacuity witness)", "none", witness=True)
 
 # ---------------------------------------------------------------- C11: channel independence and masks
 def _c11(name, bounds, sym, stubs=(), cap=900, witness=False, tier="quick"):
@@ -192,20 +197,34 @@ _c11("c11_ffo_ch0_linear", "FastFixedOut<f32> Linear chunk 5 ratio 0.75: 2-chann
 _c11("c11_sfo_ch1_sym", "SincFixedOut<f64>+Probe(2,1) Nearest chunk 2: 2-channel vs twin for channel 1, 1 call", _m + "; sample data: every finite f32 value per sample (copy-only kernel)")
 _c11("c11_sfo_ch0_sym", "SincFixedOut<f64>+Probe(2,1) Nearest chunk 2: 2-channel vs twin for channel 0, 1 call", _m + "; symbolic finite samples")
 _c11("c11_sfi_ch1_sym", "SincFixedIn<f64>+Probe(2,1) Nearest chunk 5: 2-channel vs twin for channel 1, 1 call", _m + "; symbolic finite samples")
-_c11("c11_ffi_ch1_line", "FastFixedIn<f64> Nearest chunk 10: 2-channel vs twin for channel 1, 1 call, index lines", _m)
+_c11("c11_ffi_ch1_line", "FastFixedIn<f64> Nearest chunk 12: 2-channel vs twin for channel 1, 1 call, index lines", _m)
 _c11("c11_ftio_ch1", "FftFixedInOut<f64> 2->3 chunk 2: 2-channel vs twin for channel 1, 2 calls (per-channel overlap buffers)", _m + "; symbolic finite samples in call 1", stubs=FFT_STUBS)
-_c11("c11_fto_ch1", "FftFixedOut<f64> 2->3 chunk 4, sub_chunks 2 (block 2/3: the next input need changes after one call): 2-channel vs twin for channel 1, 1 call", _m, stubs=FFT_STUBS)
+_c11("c11_fto_ch1", "FftFixedOut<f64> 2->3 chunk 4: 2-channel vs twin for channel 1, 1 call", _m, stubs=FFT_STUBS)
 _c11("c11_fti_ch0", "FftFixedIn<f64> 2->3 chunk 4: 2-channel vs twin for channel 0, 1 call", _m, stubs=FFT_STUBS)
 _c11("c11_witness", "twin fed the other channel's data: must FAIL (vacuity witness)", "none", witness=True)
+_c11("c11_ffi_masked_first", "FastFixedIn<f64> Nearest chunk 10, 2 ch, mask [false,true] (first channel empty) vs 1-channel twin, 1 call", "none (concrete mask; symbolic-mask variant c11_ffi_ch1_line is thorough)")
+_c11("c11_sfi_masked_first", "SincFixedIn<f64>+Probe(2,1) Nearest chunk 5, 2 ch, mask [false,true] vs 1-channel twin, 1 call", "none (concrete mask; symbolic-mask variant c11_sfi_ch1_sym is thorough)")
+HARNESSES["c11_ffi_ch1_line"]["tier"] = "thorough"
+HARNESSES["c11_sfi_ch1_sym"]["tier"] = "thorough"
 
 # ---------------------------------------------------------------- C17: f32 / f64 twins
 def _c17(name, bounds, sym, stubs=(), cap=600, witness=False, tier="quick"):
-    HARNESSES[name] = H("c17", ["C17"], cap=cap, sym=sym, bounds=bounds, stubs=stubs, untagged="C17", witness=witness, mem=6, tier=tier)
-_c17("c17_ffo", "FastFixedOut<f32> vs <f64> Nearest chunk 2, max_rel 2: getters, setter result, 1 call: counts equal, out32 == (out64 as f32)", "ratio: every accepted f64 (D_full); ramp")
-_c17("c17_sfo", "SincFixedOut<f32> vs <f64> +Probe(8,1) Nearest chunk 2: as above", "ratio: every accepted f64 (D_full); ramp")
-_c17("c17_ffi", "FastFixedIn<f32> vs <f64> Nearest chunk 2, 4 concrete warm-up calls, then setter + 1 call", "ratio k/32 (D_grid); ramp")
-_c17("c17_sfi", "SincFixedIn<f32> vs <f64> +Probe(8,1) Nearest chunk 2, 4 warm-up calls, setter + 1 call", "ratio k/32 (D_grid); ramp")
-_c17("c17_fft", "FftFixedOut 2->3 chunk 4 and FftFixedIn 3->2 chunk 4, f32 vs f64, 3 calls each: getters, counts, copy-kernel values", "none (no adjustable parameter)", stubs=FFT_STUBS)
+    HARNESSES[name] = H("c17", ["C17"], cap=cap, sym=sym, bounds=bounds, stubs=stubs, untagged="C17", witness=witness, mem=(7 if stubs else 6), tier=tier, thorough_cap=5400)
+_g = "setter argument: every f64; ramp; absolute/relative"
+_c17("c17_ffo_getters", "FastFixedOut<f32> vs <f64> (orig 0.75, max 2, Cubic, chunk 3): all getters before and after a ratio change, setter verdicts equal; no processing call", _g)
+_c17("c17_sfo_getters", "SincFixedOut<f32> vs <f64> +Probe(8,2) (orig 1.25, max 2): as above", _g)
+_c17("c17_fixedin_getters", "FastFixedIn and SincFixedIn, f32 vs f64: as above", _g)
+_c17("c17_ffo_call", "FastFixedOut<f32> vs <f64> Nearest chunk 2: ramped change to 0.75, 1 call: counts equal, out32 == (out64 as f32), getters equal", "none (concrete ratio; symbolic step: c17_ffo_step, thorough)")
+_c17("c17_sfo_call", "SincFixedOut<f32> vs <f64> +Probe(8,1) Nearest chunk 2: ramped change to 1.5, 1 call", "none (concrete ratio)")
+_c17("c17_ffi_call", "FastFixedIn<f32> vs <f64> Nearest chunk 10: ramped change to 0.75, 1 call", "none (concrete ratio)")
+_c17("c17_real_new_8", "SincFixedOut::<f32>::new vs ::<f64>::new (real table generation, scalar kernel), sinc_len 8: every getter equal", "none", stubs=["CpuFeature::is_detected -> false"])
+_c17("c17_real_new_20", "as above with sinc_len 20 (rounded up by the constructor), oversampling 1", "none", stubs=["CpuFeature::is_detected -> false"])
+_c17("c17_fto_call", "FftFixedOut<f32> vs <f64> 2->3 chunk 4 sub_chunks 2: getters, 1 call, counts, getters", "none", stubs=FFT_STUBS)
+_c17("c17_ffo_step", "FastFixedOut f32 vs f64 Nearest chunk 2: symbolic setter + 1 call on both", "ratio: every accepted f64 (D_full); ramp", tier="thorough")
+_c17("c17_sfo_step", "SincFixedOut f32 vs f64 +Probe(8,1) chunk 2: symbolic setter + 1 call on both", "ratio: every accepted f64 (D_full); ramp", tier="thorough")
+_c17("c17_ffi_step", "FastFixedIn f32 vs f64 chunk 2, 4 warm-up calls, symbolic setter + call", "ratio k/32; ramp", tier="thorough")
+_c17("c17_sfi_step", "SincFixedIn f32 vs f64 +Probe(8,1) chunk 2, 4 warm-up calls, symbolic setter + call", "ratio k/32; ramp", tier="thorough")
+_c17("c17_fft_3calls", "FftFixedOut and FftFixedIn, f32 vs f64, 3 calls each", "none", stubs=FFT_STUBS, tier="thorough")
 _c17("c17_witness", "different chunk sizes: must FAIL (vacuity witness)", "none", witness=True)
 
 # ---------------------------------------------------------------- C06 / C07 / C14 / C08(b): instants (index-signal observation)
@@ -285,7 +304,6 @@ for _n, _t in (("c03_ffo_two_steps", "FastFixedOut<f64> Nearest chunk 2"), ("c03
 for _n, _t in (("c03_ffo_reset_step", "FastFixedOut<f64> Nearest chunk 2"), ("c03_sfo_reset_step", "SincFixedOut<f64>+Probe(8,1) Nearest chunk 2")):
     HARNESSES[_n] = H("c03", ["C03", "C04"], cap=900, sym="post-reset ratio change k/32 (D_grid); ramp; surplus lengths",
         bounds=_t + ", max_rel 2: ratio 0.5 + call, reset(), symbolic setter + call, one more call; region [base]")
-_c17("c17_real_new_getters", "SincFixedOut::<f32>::new vs ::<f64>::new (real table generation, scalar kernel) for sinc_len 8 and 20: every getter equal", "which sinc_len (bool)", stubs=["CpuFeature::is_detected -> false"])
 HARNESSES["c07_fto_2_3_2_1"] = H("c07f", ["C07", "C04"], cap=900, mem=7, stubs=FFT_STUBS, untagged="C04", props_thorough=["C03"],
     sym="caller buffer surplus lengths in [0,1]", bounds="FftFixedOut::<f64>::new(2, 3, 2, 1, 1): FFT block (3) larger than the output chunk (2): some calls need no input; 4 calls")
 for _n, _d, _r in (("c08_ffi_quintic_line", "Quintic", "1.6"), ("c08_ffi_septic_line", "Septic", "0.8"), ("c08_ffi_cubic_line", "Cubic", "2.0")):
@@ -303,3 +321,17 @@ HARNESSES["c05_sfi_chunk_change"]["tier"] = "thorough"
 HARNESSES["c05_sfi_chunk_change"]["thorough_cap"] = 5400
 _c14("c14_ffo_grid", "FastFixedOut<f64> Linear chunk 3: ratio set once, 2 calls; every frame inside the stream: |j - (tau*ratio + output_delay())| <= max(1,ratio)+1", "ratio k/32 (D_grid)")
 HARNESSES["c14_ffo"]["tier"] = "thorough"
+
+# ---------------------------------------------------------------- concrete witnesses of recorded findings (quick) / symbolic region harnesses (thorough)
+_c06("c06_sfo_ramp_down_kf", ["C06"], "SincFixedOut<f64>+Probe(8,2) Linear chunk 3: 2 warm-up calls, ramp 1.0 -> 0.5, 1 call; all warp checks under region [ramp_down_sinc] (recorded finding F6)", "none (concrete witness)")
+_c06("c06_sfo_change_grid_all", ["C06"], "as c06_sfo_change_grid but including ramped slow-downs (region ramp_down_sinc)", "new ratio k/32 (D_grid); ramp bool", tier="thorough")
+_c14("c14_sfo_kf", "SincFixedOut<f64>+Probe(8,2) Linear chunk 3, ratio 1.0: 2 calls; region [sinc_types] (recorded finding F8)", "none (concrete witness)")
+HARNESSES["c14_sfo"]["tier"] = "thorough"
+HARNESSES["c03_sfo_os1_cubic_kf"] = H("c03", ["C03", "C04"], cap=600, sym="none (concrete witness)",
+    bounds="SincFixedOut<f64>+Probe(8,1) Cubic, ONE sub-filter, chunk 2, first call of a fresh instance; region [oversampling_1] (recorded finding F-OS1)")
+HARNESSES["c03_sfo_os1_cubic"]["tier"] = "thorough"
+HARNESSES["c03_sfo_os1_quadratic"]["tier"] = "thorough"
+HARNESSES["c03_ffi_big_jump_kf"] = H("c03x", ["C03", "C04"], cap=600, mem=6, sym="none (concrete witness)",
+    bounds="FastFixedIn<f64> Nearest chunk 2, range [1/8, 8]: 6 calls at 1/8, set_resample_ratio(2.0, false), 1 call; region [recip_span_ge3] (recorded finding F5)")
+HARNESSES["c03_ffi_big_jump_kf"]["untagged_region"] = "recip_span_ge3"
+HARNESSES["c03_ffi_big_jump"]["tier"] = "thorough"
